@@ -49,6 +49,9 @@ func (p *Proof) IsValid() bool {
 	if p == nil {
 		return false
 	}
+	if p.Commitment == nil || p.A == nil || p.B == nil || p.C == nil || p.Z1 == nil || p.Z2 == nil {
+		return false
+	}
 	if p.A.IsIdentity() || p.B.IsIdentity() || p.C.IsIdentity() {
 		return false
 	}
